@@ -96,6 +96,12 @@ func (s *scen) dyn(u string, attempt int) (world.Resp, bool) {
 			i, _ := strconv.Atoi(s.Variant)
 			return world.Resp{Status: 200, Header: map[string]string{"Content-Type": "text/html; charset=utf-8", "Link": linkHeaders[i]}, Body: page}, true
 		}
+	case "body-breaks": // variant = content type | bytes delivered | how the transfer breaks
+		if p == "/seed" {
+			f := strings.Split(s.Variant, "|")
+			at, _ := strconv.Atoi(f[1])
+			return world.Resp{Status: 200, Header: map[string]string{"Content-Type": f[0]}, Body: page + strings.Repeat("<p>filler</p>\n", 800), CutAt: at, CutErr: f[2]}, true
+		}
 	case "no-headers":
 		if p == "/seed" {
 			return world.Resp{Status: 200, Header: map[string]string{}, Body: page}, true
@@ -190,6 +196,17 @@ func scenarios(tier string) []scen {
 		}
 	}
 	out = append(out, scen{Family: "no-headers", Variant: "-", MaxRedirect: 2, MaxRetry: 0, MaxHops: 1})
+	// the transfer of the body breaks: inside the part that is sniffed (2 KiB) or after it, for a body that is
+	// spooled (html, pdf) or discarded (png), by a reset, an unexpected EOF or a timeout that every further read repeats
+	for _, ct := range []string{"text/html; charset=utf-8", "image/png", "application/pdf", ""} {
+		for _, at := range []int{1, 100, 3000, 9000} {
+			for _, how := range []string{"", "eof", "timeout"} {
+				for _, rt := range []int{0, 1} {
+					out = append(out, scen{Family: "body-breaks", Variant: fmt.Sprintf("%s|%d|%s", ct, at, how), MaxRedirect: 2, MaxRetry: rt, MaxHops: 1})
+				}
+			}
+		}
+	}
 	if tier == "thorough" {
 		for i := range out {
 			out[i].P = 1
